@@ -299,7 +299,7 @@ def run(ctx):
         for seed, rc, out, err in res:
             for l in out:
                 p = l.split(" ", 4)
-                if len(p) == 5:
+                if len(p) == 5 and p[0].isdigit() and p[2] in ("0", "1"):
                     graph_cases.append((seed,) + tuple(p))
             if rc != 0:
                 violations.append(("graph-harness-crash", {"kind": "graph-crash", "gen_seed": seed, "per": per, "rc": rc, "stderr": err, "last": out[-1:] },
@@ -307,7 +307,7 @@ def run(ctx):
         glines = []
         for seed, idx, verdict, reg, hexb, desc in graph_cases:
             glines.append("marshal " + desc)
-            glines.append("unmarshal " + hexb)
+            glines.append("unmarshal " + (hexb if hexb != "-" else ""))
         mout = ctx.model(glines, exe=exe) if exe else None
         for i, (seed, idx, verdict, reg, hexb, desc) in enumerate(graph_cases):
             gstats["cases"] += 1
@@ -326,6 +326,8 @@ def run(ctx):
                                    "(unmarshal (marshal g)) is not the same graph as g: %s (graph.janet gen %d, case %s)" % (verdict, seed, idx)))
             if mout is not None:
                 m, u = mout[2 * i], mout[2 * i + 1]
+                if hexb == "-" or desc == "?":
+                    continue
                 if m != hexb:
                     gstats["marshal_diffs"] += 1
                     gdiffs.append({"what": "marshal bytes", "gen_seed": seed, "index": int(idx), "description": desc, "impl": hexb, "model": m})
